@@ -414,6 +414,7 @@ struct SRunner {
         if (op.kind == S_BOUNDS && t.flavour != SF_FLAT) return false;
         if (op.kind == S_FIND_HETERO && !t.transparent) return false;
         io.key = pick_key();
+        if (op.kind == S_FIND_HETERO && ((op.n >> 9) & 1)) io.probeWidth = 1 + (op.n >> 11) % 4;  // a coarse probe (several equivalent elements)
         return true;
       case S_MERGE: case S_MERGE2: {
         if (!w) return false;
@@ -833,7 +834,37 @@ struct SRunner {
         if (res.count != cnt) { viol(VK_MODEL, base, "erase_if returned a different count"); return; }
       } break;
       case S_CLEAR: case S_CTOR_DEFAULT: case S_DRAIN: m.clear(); break;
-      case S_FIND: case S_FIND_HETERO: {
+      case S_FIND_HETERO:
+        if (io.probeWidth) {
+          // std::set with a probe that is equivalent to several elements: find designates any of them, count is how many there are
+          RangeProbe pr{io.key.key, io.key.key + (int)io.probeWidth};
+          auto lo = m.lower_bound(pr), hi = m.upper_bound(pr);
+          long cnt = (long)std::distance(lo, hi);
+          if (res.hasIt) {
+            if (!res.itValid) { viol(VK_ITER, iterProp, "find(heterogeneous key): the returned iterator is neither end() nor an iterator to an element of the set"); return; }
+            if (res.itEnd != (cnt == 0)) { viol(VK_ITER, iterProp, cnt ? "find(heterogeneous key): end() returned although equivalent elements exist" : "find(heterogeneous key): an element returned although none is equivalent"); return; }
+            if (cnt) {
+              bool in = false;
+              for (auto it = lo; it != hi; ++it) in = in || *it == res.itVal;
+              if (!in) { viol(VK_ITER, iterProp, "find(heterogeneous key): the returned iterator designates an element that is not equivalent to the key"); return; }
+            }
+          }
+          if (res.flag2 != (cnt != 0)) { viol(VK_MODEL, base, "contains(heterogeneous key) differs from std::set"); return; }
+          if (res.count != cnt) {
+            char mm[160];
+            snprintf(mm, sizeof mm, "count(heterogeneous key) returned %ld, std::set::count returns %ld (elements equivalent to the key)", res.count, cnt);
+            viol(VK_MODEL, base, mm);
+            return;
+          }
+          if (s.type->flavour == SF_FLAT && (res.idx[0] != model_index(m, lo) || res.idx[1] != model_index(m, hi))) {
+            viol(VK_MODEL, base, "lower_bound/upper_bound with a heterogeneous key differ from std::set");
+            return;
+          }
+          if (stats && cnt > 1) stats->probe("hetero_probe_matches_several");
+          break;
+        }
+        // fall through
+      case S_FIND: {
         auto mi = m.find(io.key);
         bool found = mi != m.end();
         if (!expect_it(res, !found, found ? *mi : Val{0, 0}, io.kind == S_FIND ? "find" : "find(heterogeneous key)", iterProp)) return;
